@@ -3,11 +3,13 @@ import Qfx.Drv.Util
 import Qfx.Drv.Val
 import Qfx.Drv.ValMon
 import Qfx.Drv.Sched
+import Qfx.Drv.Codec
 namespace Qfx.Drv
 
 def families : List (String × Family) :=
   [ ("val", valFamily), ("val-mon", valMonFamily)
   , ("sched", schedFamily)
+  , ("codec", codecFamily)
   ]
 
 end Qfx.Drv
